@@ -26,7 +26,7 @@ ASSUMPTIONS = [
 ]
 BOUNDS = {'quick': dict(dim='1..2', NP=4, steps=1, program_length='<=3 (selected)'),
           'thorough': dict(dim='1..3', NP='4..6', steps=1, program_length='<=4')}
-BUDGET = {'quick': 600, 'thorough': 5400}
+BUDGET = {'quick': 1800, 'thorough': 5400}
 
 
 def evalmon_matches(r, start_calls, start_mon):
